@@ -303,6 +303,7 @@ fn main() {
         "C15" => vmc::c15::run(&tier, &mut out),
         "C23" => vmc::c23::run(&tier, &mut out),
         "C25" => vmc::c25::run(&tier, &mut out),
+        "C33" => vmc::c33::run(&tier, &mut out),
         "C16" => vmc::snapmc::run_c16(&tier, &mut out),
         "C17" => vmc::snapmc::run_c17(&tier, &mut out),
         _ => {
